@@ -4,7 +4,7 @@ import SciVerif.Tie.Pins
 /-! Tie A obligations for C01 on the current source. -/
 namespace SciVerif.Tie
 -- functions the model relies on without an obligation of its own naming them (pinned by bin/mkpins):
--- PIN-ALSO: Scipipe.FileIP_TempPath Scipipe.Task_createDirs Scipipe.Task_ensureAllOutputsExist Scipipe.Task_tempDirsExist Scipipe.FileIP_FinalizePath Scipipe.FileIP_TempFileExists Scipipe.FileIP_Exists
+-- PIN-ALSO: Scipipe.FileIP_TempPath Scipipe.Task_createDirs Scipipe.Task_ensureAllOutputsExist Scipipe.Task_tempDirsExist Scipipe.FileIP_FinalizePath Scipipe.FileIP_TempFileExists Scipipe.FileIP_Exists Scipipe.Task_TempDir
 open SciVerif.TaskFS
 
 
@@ -29,6 +29,7 @@ theorem generated_all_ops_known_c01 : taskSemKnown = true := by decide
 
 
 
+
 -- BEGIN PINS (written by bin/mkpins; do not edit by hand)
 /-- the Go functions this property's model and obligations were written against have exactly the
 pinned skeletons (SHA-256 prefix of the atom list) -/
@@ -41,6 +42,7 @@ theorem pinned_skeletons_c01 :
      ("Scipipe.FileIP_TempPath", "7eba22a35232a5cb"),
      ("Scipipe.FinalizePaths", "291fc0cefa37cea9"),
      ("Scipipe.Task_Execute", "40fd1fec0c69deb2"),
+     ("Scipipe.Task_TempDir", "6d565a2ddd3d0eb2"),
      ("Scipipe.Task_anyOutputsExist", "0609a842b7aaf7a8"),
      ("Scipipe.Task_createDirs", "bac0633be6d72f5b"),
      ("Scipipe.Task_ensureAllOutputsExist", "02a49c3c493368f3"),
